@@ -139,3 +139,148 @@ theorem toy_ecdsa_recovers : ∃ Q', recover (EC.ops toyC) true 0 3 7 12 true = 
   ecdsa_recover_signer_ec toyOk (by decide) (by decide) (by decide) toy_ecdsa_sign true true (fun h => h)
 
 end Btc.E2E
+
+/-! ## Audit follow-up: statements over the RAW `Btc.EC.ops C`, keys as the API takes them
+
+`verify`/`verifyFull` never call `lift_x`, so their runs over `opsSub K` are runs over `Btc.EC.ops C` (`rfl`); what is
+needed to speak about an ARBITRARY key a caller hands in (a pair `point_from_pub_key` accepts) is that it denotes a
+point of the `n`-torsion: on a curve of cofactor one — the named hypothesis `hcof` — every point does.  `hcof` is the
+one assumption left for secp256k1 (its group order `n` is not re-derived here: no point count). -/
+namespace Btc.E2E
+open Btc Btc.EC Btc.C01 Btc.Ecdsa WeierstrassCurve
+
+section
+variable {p : ℕ} [Fact p.Prime] {C : Curve}
+
+theorem congruent_opsSub (K : CurveOk p C) (isX : ℤ → Bool) : ∀ (fuel : ℕ) (x : ℤ),
+    congruent (opsSub K) isX fuel x = congruent (EC.ops C) isX fuel x
+  | 0, _ => rfl
+  | fuel + 1, x => by
+    unfold congruent
+    rw [congruent_opsSub K isX fuel]
+    rfl
+
+theorem verifyFull_opsSub (K : CurveOk p C) (isX : ℤ → Bool) (c : ℤ) (P : SubPt p C) (r s : ℤ) :
+    verifyFull (opsSub K) isX c P r s = verifyFull (EC.ops C) isX c P.1 r s := by
+  unfold verifyFull sigValid
+  rw [congruent_opsSub K isX]
+  rfl
+
+/-- cofactor one ⇒ every reduced valid pair is in the lawful carrier -/
+theorem inSubOf (hcof : ∀ g : Pt p C.toCurveGroup, C.n • g = 0) {P : Point}
+    (hv : AValid p C.toCurveGroup P) (hr : RedA C.toCurveGroup P) : InSub p C P := ⟨hv, hr, hcof _⟩
+
+/-- a pair `point_from_pub_key` accepts (on the curve, `y ≠ 0`), with `x` reduced, is a reduced valid pair -/
+theorem valid_of_pubKeyOk (K : CurveOk p C) {Q : Point} (h : pubKeyOk C Q = true) (hx : 0 ≤ Q.1 ∧ Q.1 < C.p) :
+    AValid p C.toCurveGroup Q ∧ RedA C.toCurveGroup Q ∧ Q.2 ≠ 0 := by
+  unfold pubKeyOk at h
+  cases hoc : isOnCurve C.toCurveGroup Q with
+  | none => simp [hoc] at h
+  | some b =>
+    cases b with
+    | false => simp [hoc] at h
+    | true =>
+      simp only [hoc, bne_iff_ne, ne_eq] at h
+      unfold isOnCurve at hoc
+      rw [if_neg h] at hoc
+      split at hoc
+      · cases hoc
+      · rename_i hyr
+        have hyr' : 0 < Q.2 ∧ Q.2 < C.toCurveGroup.p := not_not.mp hyr
+        simp only [Option.some.injEq, beq_iff_eq] at hoc
+        have hC := K.hC
+        have hyZ : ((Q.2 : ℤ) : ZMod p) ≠ 0 :=
+          cast_ne_zero_of_red (c := C.toCurveGroup) hC ⟨le_of_lt hyr'.1, hyr'.2⟩ h
+        have heqZ : (curveOf p C.toCurveGroup).toAffine.Equation (Q.1 : ZMod p) (Q.2 : ZMod p) := by
+          rw [aff_equation_iff]
+          have h1 := congrArg (fun z : ℤ => (z : ZMod p)) hoc
+          simp only [y2_cast (c := C.toCurveGroup) hC] at h1
+          rw [show C.toCurveGroup.p = (p : ℤ) from hC, ZMod.intCast_mod] at h1
+          push_cast at h1
+          rw [pow_two]; exact h1.symm
+        have hns := aff_nonsingular_of_y_ne K.p_ne_two heqZ hyZ
+        have e : castJ p (Q.1, Q.2, 1) = ![(Q.1 : ZMod p), (Q.2 : ZMod p), 1] := by simp [castJ]
+        refine ⟨fun _ => ?_, ⟨⟨le_of_lt hyr'.1, hyr'.2⟩, fun _ => hx⟩, h⟩
+        rw [e]; exact (Jacobian.nonsingular_some ..).mpr hns
+
+/-- **`hX` discharged for the driver's x-coordinate test** (`Btc.Ecdsa.isXCoord`, Euler's criterion): it accepts the
+x-coordinate of every non-identity element -/
+theorem isXCoord_complete (K : CurveOk p C) (P : SubPt p C) (hP : absSub P ≠ 0) :
+    isXCoord C ((opsSub K).x P) = true := by
+  have hy : P.1.2 ≠ 0 := (absSub_ne_zero_iff P).mp hP
+  have hxr : 0 ≤ P.1.1 ∧ P.1.1 < C.p := P.2.2.1.2 hy
+  have hyr : 0 ≤ P.1.2 ∧ P.1.2 < C.p := P.2.2.1.1
+  have hC := K.hC
+  have hyZ : ((P.1.2 : ℤ) : ZMod p) ≠ 0 := cast_ne_zero_of_red (c := C.toCurveGroup) hC hyr hy
+  have hpp := (Fact.out : p.Prime)
+  show (decide (0 ≤ P.1.1 ∧ P.1.1 < C.p) && (modPow (y2 C.toCurveGroup P.1.1) ((C.p.toNat - 1) / 2) C.p != C.p - 1)) = true
+  rw [Bool.and_eq_true, decide_eq_true_eq, bne_iff_ne]
+  refine ⟨hxr, fun hbad => ?_⟩
+  rw [show C.p = (p : ℤ) from hC] at hbad
+  have h1 := congrArg (fun z : ℤ => (z : ZMod p)) hbad
+  simp only [modPow_cast, y2_cast (c := C.toCurveGroup) hC, Int.toNat_natCast] at h1
+  rw [← sub_equation P hy, ← pow_mul] at h1
+  have hodd : 2 * ((p - 1) / 2) = p - 1 := by
+    have := hpp.eq_two_or_odd'
+    rcases this with h2 | h2
+    · exact absurd h2 K.p_ne_two
+    · obtain ⟨k, hk⟩ := h2; omega
+  rw [hodd, ZMod.pow_card_sub_one_eq_one hyZ] at h1
+  push_cast at h1
+  simp only [CharP.cast_eq_zero, zero_sub] at h1
+  have h2 : (2 : ZMod p) = 0 := by linear_combination h1
+  have h3 : ((2 : ℕ) : ZMod p) = 0 := by exact_mod_cast h2
+  have := (ZMod.natCast_eq_zero_iff 2 p).mp h3
+  have := Nat.le_of_dvd (by norm_num) this
+  have := hpp.two_le
+  exact K.p_ne_two (by omega)
+
+/-- **C02-T2 over the raw arithmetic, any key the API accepts** (cofactor one): for a pair `Q` that `point_from_pub_key`
+accepts, with `x` reduced, the verifier run over `Btc.EC.ops C` answers `true` exactly when SEC 1 holds for the point
+`Q` denotes -/
+theorem ecdsa_verify_iff_sec1_raw (K : CurveOk p C) (h34 : p % 4 = 3)
+    (hcof : ∀ g : Pt p C.toCurveGroup, C.n • g = 0) (c : ℤ) (Q : Point)
+    (hv : AValid p C.toCurveGroup Q) (hr : RedA C.toCurveGroup Q) (r s : ℤ) :
+    Ecdsa.verify (EC.ops C) c Q r s = true ↔
+      SEC1 (lawful_ec K h34) c ⟨Q, inSubOf hcof hv hr⟩ r s :=
+  verify_iff_SEC1 (lawful_ec K h34) c ⟨Q, inSubOf hcof hv hr⟩ r s
+
+/-- **C02-T2′ over the raw arithmetic**: the PUBLIC boolean (`Sig.assert_valid`'s screens with the executed
+x-coordinate test `isXCoord C`, refusals turned into `False`) is the SEC 1 predicate; `hX` is proved, not assumed -/
+theorem ecdsa_verify_api_is_sec1_raw (K : CurveOk p C) (h34 : p % 4 = 3)
+    (hcof : ∀ g : Pt p C.toCurveGroup, C.n • g = 0) (c : ℤ) (Q : Point)
+    (hv : AValid p C.toCurveGroup Q) (hr : RedA C.toCurveGroup Q) (r s : ℤ) :
+    verifyFull (EC.ops C) (isXCoord C) c Q r s = true ↔
+      SEC1 (lawful_ec K h34) c ⟨Q, inSubOf hcof hv hr⟩ r s := by
+  have L := lawful_ec K h34
+  have h := verifyFull_eq_verify (lawful_ec K h34) (isXCoord C)
+    (fun P hP => isXCoord_complete K P hP) c ⟨Q, inSubOf hcof hv hr⟩ r s
+  rw [← verify_iff_SEC1 (lawful_ec K h34), ← h, verifyFull_opsSub]
+
+/-- the same two, with key validity as the API decides it (`pubKeyOk`: `point_from_pub_key` on a tuple) -/
+theorem ecdsa_verify_api_is_sec1_key (K : CurveOk p C) (h34 : p % 4 = 3)
+    (hcof : ∀ g : Pt p C.toCurveGroup, C.n • g = 0) (c : ℤ) (Q : Point)
+    (hk : pubKeyOk C Q = true) (hx : 0 ≤ Q.1 ∧ Q.1 < C.p) (r s : ℤ) :
+    (verifyFull (EC.ops C) (isXCoord C) c Q r s = true ↔ Ecdsa.verify (EC.ops C) c Q r s = true) ∧
+    (Ecdsa.verify (EC.ops C) c Q r s = true ↔
+      SEC1 (lawful_ec K h34) c ⟨Q, inSubOf hcof (valid_of_pubKeyOk K hk hx).1
+        (valid_of_pubKeyOk K hk hx).2.1⟩ r s) := by
+  obtain ⟨hv, hr, _⟩ := valid_of_pubKeyOk K hk hx
+  exact ⟨by rw [ecdsa_verify_api_is_sec1_raw K h34 hcof c Q hv hr, ecdsa_verify_iff_sec1_raw K h34 hcof c Q hv hr],
+    ecdsa_verify_iff_sec1_raw K h34 hcof c Q hv hr r s⟩
+
+end
+
+/-- secp256k1, any key the API accepts.  `hcof` — cofactor one: every point of `y² = x³ + 7` over `F_p` is killed by
+`n`, i.e. the curve has exactly `n` points — is NOT proved here (no point count); it is the one named assumption. -/
+theorem ecdsa_verify_api_is_sec1_secp256k1 (hcof : ∀ g : SecpGroup, secp256k1.n • g = 0) (c : ℤ) (Q : Point)
+    (hk : pubKeyOk secp256k1 Q = true) (hx : 0 ≤ Q.1 ∧ Q.1 < secp256k1.p) (r s : ℤ) :
+    (verifyFull (EC.ops secp256k1) (isXCoord secp256k1) c Q r s = true ↔
+      Ecdsa.verify (EC.ops secp256k1) c Q r s = true) ∧
+    (Ecdsa.verify (EC.ops secp256k1) c Q r s = true ↔
+      SEC1 secpLawful c ⟨Q, @inSubOf secp256k1_p ⟨secp256k1_p_prime⟩ secp256k1 hcof _
+        (@valid_of_pubKeyOk secp256k1_p ⟨secp256k1_p_prime⟩ secp256k1 secpOk Q hk hx).1
+        (@valid_of_pubKeyOk secp256k1_p ⟨secp256k1_p_prime⟩ secp256k1 secpOk Q hk hx).2.1⟩ r s) :=
+  @ecdsa_verify_api_is_sec1_key secp256k1_p ⟨secp256k1_p_prime⟩ secp256k1 secpOk secp256k1_h34 hcof c Q hk hx r s
+
+end Btc.E2E
